@@ -158,7 +158,7 @@ func TestCheck(t *testing.T) {
 		"SAMPLED part: secrets, messages, polynomials; for n > %d up to %d distinct PRNG subsets of size >= t (all of them when fewer exist), all singletons and %d subsets of size t-1; "+
 		"single substitutions (foreign share of another secret / of a re-split of the same secret, relabelled index, partial over another message, partial from an unrelated key, malformed partial: zero / zeroed tail / infinity / bit flip) on up to %d PRNG subsets per case, every position of one size-t subset; "+
 		"non-trivial = at least one subset with more than t members or a substitution was evaluated; distinct = hash(n,t,split kind,secret,message); "+
-		"PURITY part (history / aliasing): a serial prologue of %d operations on one goroutine with nothing else running, then %d purity cases (1..4 concurrent actors x 24..47 operations, run among the other cases) over 2..3 key sets (n 2..5): "+
+		"CPU part: a serial prologue repeats aggregate / recover identities for every subset of size >= t of 7 small (n,t) pairs under GOMAXPROCS 1..5 and the machine's own value; PURITY part (history / aliasing): a serial prologue of %d operations on one goroutine with nothing else running, then %d purity cases (1..4 concurrent actors x 24..47 operations, run among the other cases) over 2..3 key sets (n 2..5): "+
 		"Sign / all-shares-sign-one-buffer rounds / Verify with known expectation (valid, prefix-sharing other message, other message, other key, bit-flipped signature) / ThresholdAggregate (optionally right after a failing call) / RecoverSecret+RecoverPubkey / ThresholdSplit(+Insecure) / Aggregate+VerifyAggregate, "+
 		"key set chosen stickily (A-ops, B-ops, A-ops); messages are passed out of a scratch buffer overwritten in place (same / other length), a sub-slice of a larger buffer or a fresh copy; every slice and map handed to tbls is scribbled over after the call returns, returned maps after use; "+
 		"every result is compared with the result remembered for the same argument values and with the semantic oracles; a purity case is non-trivial when a message buffer was overwritten in place (same length) between two signing calls, distinct = hash of the operation traces",
@@ -183,6 +183,7 @@ func TestCheck(t *testing.T) {
 	r.Require("purity_ops/verify", 300)
 	r.Require("purity_inplace_same_length_overwrites_between_signs", 200)
 	r.Require("purity_repeated_calls_compared", 300)
+	r.Require("cpu_sweep_subsets", 400)
 
 	// herumi initialises the static state behind SetByCSPRNG lazily and without synchronisation:
 	// when the first calls race, its destructor is registered twice and glibc aborts with "double
@@ -196,6 +197,7 @@ func TestCheck(t *testing.T) {
 	// 1..4 concurrent actors mixed among the algebraic cases.
 	if !r.Replaying() {
 		runPuritySerial(r, serialOps)
+		runCPUSweep(r)
 	}
 
 	base := len(pairs) * rounds
